@@ -98,6 +98,7 @@ type W3Run struct {
 	settled             bool
 	lockHeld            map[int]bool // nodes whose catalogue locks were held at a quiescent instant
 	firstPermanentCrash uint64       // event stamp of the first crash in this run (0: none)
+	zeroOnly            bool         // control-plane checks: only the zero group has to converge
 }
 
 func vecOf(id, ver, dim int) []float32 {
@@ -337,7 +338,7 @@ func (r *W3Run) viol(sig, format string, a ...interface{}) {
 func (r *W3Run) aliveNodes() []*simNode {
 	var out []*simNode
 	for _, n := range r.s.nodes {
-		if n.alive && n.parts != nil && n.joined {
+		if n.alive && n.parts != nil && n.joined && !n.limbo {
 			out = append(out, n)
 		}
 	}
@@ -400,7 +401,7 @@ func (r *W3Run) partitionsReady(id uuid.UUID) bool {
 }
 
 func (r *W3Run) createDataset(slot int, via *simNode, p, rep, dim, space int, wait bool) *histOp {
-	h := &histOp{op: W3Op{K: "create", DS: slot, Node: via.idx}, idx: len(r.hist)}
+	h := &histOp{op: W3Op{K: "create", DS: slot, Node: via.idx, P: p, R: rep}, idx: len(r.hist)}
 	r.hist = append(r.hist, h)
 	info := &dsInfo{dim: dim, space: space, p: p, r: rep}
 	r.ds[slot] = info
@@ -652,6 +653,9 @@ func (r *W3Run) settle() bool {
 	// node it joins through is still down)
 	allUp := func() bool {
 		for _, n := range s.nodes {
+			if n.retired || n.limbo {
+				continue
+			}
 			if !n.alive || !n.joined {
 				return false
 			}
@@ -660,7 +664,7 @@ func (r *W3Run) settle() bool {
 	}
 	for attempt := 0; attempt < 12 && !allUp(); attempt++ {
 		for _, n := range s.nodes {
-			if !n.alive {
+			if !n.alive && !n.retired {
 				if err := s.startNode(n); err != nil {
 					r.viol("restart-failed/"+restartClass(err), "n%d could not restart: %v", n.idx, err)
 					return false
@@ -696,6 +700,9 @@ func (r *W3Run) converged() bool {
 		}
 	}
 	for gid := range groups {
+		if r.zeroOnly && !uuid.Equal(gid, uuid.Nil) {
+			continue
+		}
 		var applied, term, lead uint64
 		first := true
 		hasLeader := false
@@ -723,7 +730,11 @@ func (r *W3Run) converged() bool {
 			}
 		}
 		if cnt > 0 && !hasLeader {
-			return false
+			// the leader may be a node nothing is asserted about (removal never acknowledged)
+			ln := s.byId[lead]
+			if ln == nil || !ln.alive || !ln.limbo {
+				return false
+			}
 		}
 	}
 	// every dataset known to anyone has its hosted partitions loaded
